@@ -8,6 +8,13 @@
 #include <time.h>
 #include <unistd.h>
 
+/* harnesses linked with --wrap (nvenv.h) must reach the real system calls for their own I/O */
+#ifdef NV_WRAPPED
+#define NV_SYS(x) __real_##x
+#else
+#define NV_SYS(x) x
+#endif
+
 static int nv_shard, nv_nshards = 1;
 static int nv_thorough;
 static double nv_deadline_s = 1e9;	/* seconds of wall time this shard may use */
@@ -223,7 +230,7 @@ static void nv_guard_alarm(int sig)
 	(void) sig;
 	if (nv_out)
 		fflush(nv_out);
-	if (write(nv_out ? fileno(nv_out) : 1, buf, n) < 0)
+	if (NV_SYS(write)(nv_out ? fileno(nv_out) : 1, buf, n) < 0)
 		_exit(3);
 	_exit(nv_guard_exit);
 }
@@ -279,10 +286,10 @@ static long nv_forkloop(long n, void (*fn)(long), void (*desc)(long, char *, int
 		}
 		if (!pid) {
 			long i;
-			int efd = open(errpath, O_WRONLY | O_CREAT | O_TRUNC, 0600);
+			int efd = NV_SYS(open)(errpath, O_WRONLY | O_CREAT | O_TRUNC, 0600);
 			if (efd >= 0) {
 				dup2(efd, 2);
-				close(efd);
+				NV_SYS(close)(efd);
 			}
 			nv_guard_exit = 7;
 			for (i = start; i < n; i++) {
